@@ -92,7 +92,7 @@ CHECKS['C18'] = dict(
 from checks_py import stream_families, cached_binary
 HOOK_COMMITS.append('7573bac2'); HOOK_COMMITS.append('be5b62f7')
 
-_PROG_RULE = ('fonts enumerated by gen/progenum.py and filtered by the REAL loader: (action) every action program of <=3 atoms (quick) / <=4 atoms (thorough) over a 26-atom alphabet, plus every program of 4 (quick, >= 3 distinct atoms) / 5 (thorough) atoms over the 11 structural atoms (NEXT, glyph change, copy, insert, delete, assoc, attach), plus in quick the 1440 5-atom programs using one atom of each kind (advance, glyph change, delete, copy, attach) in every order, plus programs whose run-time stack use exceeds the loader's linear depth analysis (SET_FEAT x 2..20) '
+_PROG_RULE = ('fonts enumerated by gen/progenum.py and filtered by the REAL loader: (action) every action program of <=3 atoms (quick) / <=4 atoms (thorough) over a 26-atom alphabet, plus every program of 4 (quick, >= 3 distinct atoms) / 5 (thorough) atoms over the 11 structural atoms (NEXT, glyph change, copy, insert, delete, assoc, attach), plus in quick the 1440 5-atom programs using one atom of each kind (advance, glyph change, delete, copy, attach) in every order, plus programs whose run-time stack use exceeds the linear depth analysis of the loader (SET_FEAT x 2..20) '
               '{NEXT, PUT_GLYPH x|y, PUT_SUBS -1|0|+1, PUT_COPY -1|0|+1, INSERT, DELETE, ASSOC, attach.to -2..2, ATTR_SET adv/shift/att/insert, IATTR_SET user, SET_FEAT, slot/glyph-attr readers} x 6 terminators '
               '(RET_ZERO, POP_RET -2..2), in 3 (quick) / 6 (thorough) rule contexts (rule length 1..3, pre-context 0..1, maxRuleLoop 1/2/5, substitution or positioning pass) followed by a fixed attaching pass; '
               '(constraint) every constraint program of <=4 / <=5 atoms over 20 atoms incl. CNTXT_ITEM bodies netting 0/+1/+2, plus CNTXT_ITEM bodies of k = 2..16 pushes (skipped at run time on the other slots) followed by k-1 AND/ADD/OR; (twopass) all ordered pairs (thorough: triples) of 18 hand-written attach/re-attach/delete/insert/copy/assoc rules '
